@@ -15,15 +15,18 @@ statement about sequences of *any* members with pairwise disjoint names.
 namespace Zeep.Xsd
 open Zeep
 
+mutual
 /-- local names a member can start with -/
 def mnames : Particle → List String
   | .elem q _ _ _ => [q.name]
   | .choice bs _ _ => pnames bs
+  | .seq ps _ _ => lnames ps
   | _ => []
 
 def lnames : List Particle → List String
   | [] => []
   | p :: ps => mnames p ++ lnames ps
+end
 
 /-- `rest` starts with none of the names -/
 def HeadNotAny (names : List String) (rest : List Node) : Prop := ∀ n ∈ names, HeadNot n rest
@@ -108,6 +111,34 @@ theorem seqRound_members (m : Mode) (M : Particle → Inst → Prop) (hM : ∀ p
           | nil => exact absurd h hne'
           | cons _ _ => rfl
         simp [serList, seqRound, hc, hr, hemp, bind, Except.bind, pure, Except.pure]
+
+/-- **a record decodes back when its members do**: the last step of every record round trip, for any
+notion `M` of well-formed member whose instances satisfy `MemberOK` -/
+theorem dec_record_of_members (m : Mode) (M : Particle → Inst → Prop) (hM : ∀ p i, M p i → MemberOK m p i)
+    (ps : List Particle) (insts : List Inst) (smin : Nat) (decls : List AttrDecl) (attrs : List (QName × String))
+    (hattrs : declaredAttrs decls attrs = attrs) (hround : WTRoundG M ps insts) :
+    Dec m (.complex (some (.seq ps smin (.bounded 1))) decls true) (.complex attrs (some (.seqR [insts])) []) := by
+  have hne : insts ≠ [] := by
+    intro h; subst h
+    cases ps <;> simp [WTRoundG] at hround
+  obtain ⟨g0, hr⟩ := seqRound_members m _ hM ps insts hne hround
+  obtain ⟨hser, _⟩ := serList_members m _ hM ps insts hne hround
+  refine ⟨fun q => by simp [serItem, Node.tag], g0 + 4, ?_⟩
+  intro gas hg q a
+  obtain ⟨g, rfl⟩ : ∃ g, gas = g + 4 := ⟨gas - 4, by omega⟩
+  obtain ⟨c, hc⟩ := hr (g + 1) (by omega) (decide (0 ≥ smin)) (serList ps insts).length
+  obtain ⟨x, xs, hx⟩ : ∃ x xs, serList ps insts = x :: xs := by
+    cases h : serList ps insts with
+    | nil => exact absurd h hser
+    | cons x xs => exact ⟨x, xs, rfl⟩
+  have hkids : ((x :: xs).isEmpty) = false := rfl
+  refine ⟨c + 1 + 1, ?_⟩
+  simp only [serItem, serInst, serRounds, List.append_nil, parseNode, Node.kids, Node.attrs, hx, hkids,
+    Bool.not_true, Bool.false_eq_true, if_false, Bool.and_false, Bool.false_and, parseP, Occ.limit, seqLoop]
+  rw [← hx, hc]
+  have hprog : ¬ (0 = (serList ps insts).length) := by
+    rw [hx]; simp
+  simp [bind, Except.bind, hprog, pure, Except.pure, seqLoop, hattrs]
 
 /-! ### the two kinds of members -/
 
@@ -351,28 +382,7 @@ theorem c01_record_with_choices_roundtrip (m : Mode) : ∀ (d : Nat) (ty : Ty) (
         | some (.seq ps smin (.bounded 1)), true, some (.seqR [insts]), [], hw =>
           simp only [WTItemG] at hw
           obtain ⟨hattrs, hround⟩ := hw
-          have hM := memberOK_of_WT m (WTItemG d) ih
-          have hne : insts ≠ [] := by
-            intro h; subst h
-            cases ps <;> simp [WTRoundG] at hround
-          obtain ⟨g0, hr⟩ := seqRound_members m _ hM ps insts hne hround
-          obtain ⟨hser, _⟩ := serList_members m _ hM ps insts hne hround
-          refine ⟨fun q => by simp [serItem, Node.tag], g0 + 4, ?_⟩
-          intro gas hg q a
-          obtain ⟨g, rfl⟩ : ∃ g, gas = g + 4 := ⟨gas - 4, by omega⟩
-          obtain ⟨c, hc⟩ := hr (g + 1) (by omega) (decide (0 ≥ smin)) (serList ps insts).length
-          obtain ⟨x, xs, hx⟩ : ∃ x xs, serList ps insts = x :: xs := by
-            cases h : serList ps insts with
-            | nil => exact absurd h hser
-            | cons x xs => exact ⟨x, xs, rfl⟩
-          have hkids : ((x :: xs).isEmpty) = false := rfl
-          refine ⟨c + 1 + 1, ?_⟩
-          simp only [serItem, serInst, serRounds, List.append_nil, parseNode, Node.kids, Node.attrs, hx, hkids,
-            Bool.not_true, Bool.false_eq_true, if_false, Bool.and_false, Bool.false_and, parseP, Occ.limit, seqLoop]
-          rw [← hx, hc]
-          have hprog : ¬ (0 = (serList ps insts).length) := by
-            rw [hx]; simp
-          simp [bind, Except.bind, hprog, pure, Except.pure, seqLoop, hattrs]
+          exact dec_record_of_members m _ (memberOK_of_WT m (WTItemG d) ih) ps insts smin decls attrs hattrs hround
       | _ => simp [WTItemG] at hw
     | _ => cases it <;> simp [WTItemG] at hw
 
